@@ -133,7 +133,7 @@ pub fn run(property: &str, tier: &str, replay: Option<Value>) -> ! {
     // "exhaustive" refers to the space actually claimed: every history of length <= depth_completed
     // over the alphabet.  A partially expanded next level is reported separately and not claimed.
     rep.cov("exhaustive", true);
-    rep.cov("exhaustive_scope", format!("all histories of length <= {} over the {}-operation alphabet, exact-state deduplicated", stats.depth_completed, alpha.ops.len()));
+    rep.cov("exhaustive_scope", format!("all histories of length <= {} from the empty store and of length <= {} from each of the {} other root stores, over the {}-operation alphabet, exact-state deduplicated", stats.depth_completed, stats.depth_completed.saturating_sub(1), deep_roots().len() - 1, alpha.ops.len()));
     rep.cov("next_level_partially_expanded", stats.capped);
     rep.cov("alphabet_ops", alpha.ops.len() as u64);
     rep.cov("store_vs_told_divergent_transitions", stats.diverged_total);
